@@ -28,7 +28,7 @@ func (p *Program) RetExprs(fn *ssa.Function, i int) []*Expr {
 			continue
 		}
 		if r, ok := b.Instrs[len(b.Instrs)-1].(*ssa.Return); ok && i < len(r.Results) {
-			out = append(out, x.E(r.Results[i]))
+			out = append(out, x.E(RetVal(r, i)))
 		}
 	}
 	return out
